@@ -629,8 +629,8 @@ def u_sac_iteration(ctx):
     from vlib.common import inexact_leaves
 
     with _Spy() as spy:
-        for i in range(ctx.n(6, 40)):
-            env = TimeLimit(_denv(ctx, "box"), int(ctx.rng.integers(2, 6)))
+        for i in range(ctx.n(12, 40)):
+            env = TimeLimit(_denv(ctx, "box"), int(ctx.rng.integers(2, 5)))
             gamma = float(ctx.rng.choice([0.5, 0.9, 0.99]))
             alpha = float(ctx.rng.choice([0.05, 0.2, 1.0]))
             E, S = int(ctx.rng.integers(1, 3)), int(ctx.rng.integers(1, 3))
@@ -653,6 +653,26 @@ def u_sac_iteration(ctx):
             want, b = sac_target_ref(pol, [st.qf1, st.qf2, st.qf1_target, st.qf2_target], batch, gamma, alpha)
             ctx.case({"gamma": gamma, "alpha": alpha, "E": E, "S": S, "i": i}, nontrivial=True, cls="sac-iteration")
             ctx.monitor("sac_iteration_targets_observed")
+            # end to end: the s' that V' is evaluated at is the successor the environment actually reached from
+            # the stored (s, a), also on a truncated step (where the collector has already restarted the episode)
+            from vlib.mdp import RefMDP
+
+            base = env.env
+            ref = RefMDP(np.asarray(base.P), np.asarray(base.R), np.asarray(base.term), np.asarray(base.starts),
+                         kind="box", low=base.low, high=base.high)
+            o_b, no_b, a_b = np.asarray(batch.observations), np.asarray(batch.next_observations), np.asarray(batch.actions)
+            d_b, t_b = np.asarray(batch.dones, bool), np.asarray(batch.timeouts, bool)
+            for j in range(len(o_b)):
+                s_j = int(np.argmax(o_b[j]))
+                ns_j = int(ref.P[s_j, ref.a_index(ref.clip(a_b[j]))])
+                ctx.monitor("sac_iteration_bootstrap_states_checked")
+                if d_b[j] and t_b[j]:
+                    ctx.monitor("sac_iteration_truncated_bootstrap_states_checked")
+                if int(np.argmax(no_b[j])) != ns_j or float(np.max(no_b[j])) != 1.0:
+                    ctx.violation("sac-iteration-target-bootstraps-from-a-state-that-is-not-the-successor",
+                                  {"s": s_j, "action": a_b[j], "true_successor": ns_j, "stored_next_obs": no_b[j],
+                                   "done": bool(d_b[j]), "timeout": bool(t_b[j]), "gamma": gamma})
+                    break
             if np.max(np.abs(got - want)) > 1e-5 + 2e-4 * np.max(np.abs(want)):
                 alt, _ = sac_target_ref(pol, [st.qf1, st.qf2, st.qf1, st.qf2_target], batch, gamma, alpha)
                 alt2, _ = sac_target_ref(pol, [st.qf1, st.qf2, st.qf1, st.qf2], batch, gamma, alpha)
@@ -670,6 +690,7 @@ def u_sac_iteration(ctx):
                 if err > 2e-6:
                     ctx.violation("sac-iteration-target-critics-not-polyak-of-state-targets", {"net": nm, "err": err})
     ctx.require("sac_iteration_targets_observed", 3)
+    ctx.require("sac_iteration_truncated_bootstrap_states_checked", 1)
 
 
 def run_unit(name, ctx):
